@@ -199,7 +199,7 @@ def _isinstance_kinds(p, val: str):
     return out
 
 
-def rule_attributes(ctx: Ctx):
+def rule_attributes(ctx: Ctx, rule: str = "C15.events"):
     """C15.events: how each kind of class attribute becomes states/events (one dispatch per kind)."""
     rep = ctx.rep
     fn = ctx.fn("StateMachineMetaclass.add_from_attributes")
@@ -211,7 +211,7 @@ def rule_attributes(ctx: Ctx):
         if not its:
             continue
         if xshow(its[0].term, evs) != f"{fn.params[1]}.items()":
-            rep.violation("C15.events", its[0].loc(), "the metaclass does not visit the class attributes in declaration order", fn.key, norm_stmt(its[0].node))
+            rep.violation(rule, its[0].loc(), "the metaclass does not visit the class attributes in declaration order", fn.key, norm_stmt(its[0].node))
             continue
         elem = show(its[0].x["elem"])
         key, val = f"{elem}[0]", f"{elem}[1]"
@@ -234,8 +234,8 @@ def rule_attributes(ctx: Ctx):
          "an explicit Event attribute is re-created under the attribute's name with its transitions and display name, and replaces the placeholder"),
     ]
     for sub, pred, what in checks:
-        rep.check(has(sub, pred), "C15.events", fn.loc(), what, fn.key, f"dispatch for `{sorted(sub)}`: {seen.get(sub, [[]])[:1]}")
-    rep.floor("C15.events", "attribute kinds dispatched by add_from_attributes", len(seen), 4)
+        rep.check(has(sub, pred), rule, fn.loc(), what, fn.key, f"dispatch for `{sorted(sub)}`: {seen.get(sub, [[]])[:1]}")
+    rep.floor(rule, "attribute kinds dispatched by add_from_attributes", len(seen), 4)
     ur = ctx.fn("StateMachineMetaclass._update_event_references")
     ok_replace = ok_raise = False
     for p in ctx.paths(ur, inline=None, exc_edges="none", unroll=1):
@@ -254,9 +254,9 @@ def rule_attributes(ctx: Ctx):
                 ok_replace = ok_replace or (len(its) >= 3 and bool(guard) and len(e.term.args) == 2)
         if p.kind == "raise" and "InvalidDefinition" in xshow(p.value, evs):
             ok_raise = True
-    rep.check(ok_replace, "C15.events", ur.loc(), "placeholder events are replaced by the named event on every transition of every state that matches them",
+    rep.check(ok_replace, rule, ur.loc(), "placeholder events are replaced by the named event on every transition of every state that matches them",
               ur.key, "no guarded _replace(old, new) inside the states/transitions loops")
-    rep.check(ok_raise, "C15.events", ur.loc(), "an event that never got an id is an InvalidDefinition", ur.key, "no InvalidDefinition path")
+    rep.check(ok_raise, rule, ur.loc(), "an event that never got an id is an InvalidDefinition", ur.key, "no InvalidDefinition path")
 
 
 def _is_deepcopy(ctx: Ctx, call: ast.Call, fn) -> bool:
